@@ -15,6 +15,10 @@ CHECKS["C03"]=dict(cat="exploration", engine="xplore", design="DESIGN.md §3 C03
    technique="bounded-exhaustive enumeration of selector x input families (all short strings over boundary alphabets, run-length families around 0x80/0x81/0xFF, size ladder x textures) through the real compress/decompress/decompress_secure",
    text="Each (selector, input) of the enumerated families is compressed and decompressed by the real code under default SecurityLimits; oracle = identity, never-expands, raw-or-prefixed form. Exhaustive within the families; inputs up to 2^17 (quick) / 2^21 (thorough).",
    note="Compressor refusals (Err) are accepted and counted. ADPCM judged on length and channel sides only.")
+CHECKS["C02"]=dict(cat="exploration", engine="xplore", design="DESIGN.md §3 C02",
+   technique="bounded-exhaustive differential enumeration: every configuration of the published MPQ subset x content classes is written by one implementation and read by the other (library vs independent refimpl::mpqref), both directions",
+   text="Full product of the published-subset axes (V1/V2, shifts, none/zlib/bzip2, plain/encrypted/fix-key, single-unit, hash sizes, listfile) x 6 textures; each archive carries files on every sector-boundary length under colliding, directory-nested names and is cross-read bit for bit. The independent side breaks the same-code-on-both-sides symmetry of self round-trips (it found the full-path file key, the trailing-dword cipher step and whole-file decryption of uncompressed multi-sector files).",
+   note="Trusted: refimpl::mpqref (independent reader/writer written from the published format; zlib/bzip2 streams via flate2/bzip2 crates).")
 NOT_APPLICABLE = {}
 def main():
     checks=[]
